@@ -17,7 +17,7 @@ ID = "C10"
 LEVEL = "fault_enumeration"
 RULE = ("a case is (history of 2-5 loky Parallel calls, with/without `with`, n_jobs 2-4, task arguments of 0 / 0.1 / 0.3 / 1 / 1.5 MB - larger than the pipe buffer, so that the call queue's feeder thread is blocked in a write when every worker is busy) x one fault: victims 1..n_jobs x how "
         "{SIGKILL, SIGSEGV, os._exit(3), os._exit(chosen status 0..255), SIGTERM} x instant {arg_unpickle, task_start, mid_task, task_end, result_pickle, "
-        "result_send_small, result_send_large, idle_between_calls (signals from outside, or a thread left behind in the worker ending it with a chosen status - 0 included - for one, all but one or all idle workers), next_call_startup, next_call_startup_other_n_jobs (the next call asks for another n_jobs, so the executor is being resized or gracefully replaced when the idle worker dies), after_idle_timeout (every worker has left after idle_worker_timeout = 1 s; the next call has a single batch whose worker dies, alone or after killing the other freshly started workers), executor_replacement / executor_resize (a generator call is running when a second call "
+        "result_send_small, result_send_large, idle_between_calls (signals from outside, or a thread left behind in the worker ending it with a chosen status - 0 included - for one, all but one or all idle workers), next_call_startup, next_call_startup_other_n_jobs (the next call asks for another n_jobs, so the executor is being resized or gracefully replaced when the idle worker dies), after_idle_timeout (every worker has left after idle_worker_timeout = 1 s; the next call has a single batch whose worker dies, alone or after killing the other freshly started workers), death_while_caller_pulls_input (the input iterable keeps the caller's thread inside its initial dispatch loop until the executor has noticed the death), executor_replacement / executor_resize (a generator call is running when a second call "
         "with other executor arguments / another n_jobs makes loky shut the executor down gracefully or resize it, and the worker dies while that waits)}; the quick tier enumerates every "
         "instant x how once, the thorough tier crosses them with victims, n_jobs, call position and batch size; "
         "distinct_nontrivial counts distinct (instant, how, victims, n_jobs, call index, managed) whose fault really "
@@ -30,11 +30,12 @@ ASSUMPTIONS = [
     "fan-out is limited to 6 cases at a time so that machine load is not the fault",
 ]
 SHARDS = {"quick": 6, "thorough": 6}
-FLOORS = {"quick": {"cases_with_fault_observed": 25, "calls_checked": 70, "instants_covered": 13, "deaths_while_the_executor_is_replaced_or_resized": 6, "idle_workers_ending_with_a_chosen_exit_status": 8, "cases_with_task_arguments_larger_than_a_pipe_buffer": 10},
-          "thorough": {"cases_with_fault_observed": 300, "calls_checked": 1200, "instants_covered": 13, "deaths_while_the_executor_is_replaced_or_resized": 80, "idle_workers_ending_with_a_chosen_exit_status": 80}}
+FLOORS = {"quick": {"cases_with_fault_observed": 25, "calls_checked": 70, "instants_covered": 14, "deaths_while_the_executor_is_replaced_or_resized": 6, "idle_workers_ending_with_a_chosen_exit_status": 8, "cases_with_task_arguments_larger_than_a_pipe_buffer": 10},
+          "thorough": {"cases_with_fault_observed": 300, "calls_checked": 1200, "instants_covered": 14, "deaths_while_the_executor_is_replaced_or_resized": 80, "idle_workers_ending_with_a_chosen_exit_status": 80}}
 CHILD = os.path.join(harness.VERIF, "checks", "c10_child.py")
 INSTANTS = ["arg_unpickle", "task_start", "mid_task", "task_end", "result_pickle", "result_send_small", "result_send_large",
-            "idle_between_calls", "next_call_startup", "executor_replacement", "executor_resize", "next_call_startup_other_n_jobs", "after_idle_timeout"]
+            "idle_between_calls", "next_call_startup", "executor_replacement", "executor_resize", "next_call_startup_other_n_jobs", "after_idle_timeout",
+            "death_while_caller_pulls_input"]
 HOWS = ["SIGKILL", "SIGSEGV", "exit", "SIGTERM"]
 
 
@@ -111,6 +112,9 @@ def mk(rng, i, inst, how, victims=1):
     if inst == "after_idle_timeout":
         # one victim: the worker running the only batch; "all": that worker first kills the other (idle) new workers
         victims = rng.choice([1, J, J])
+    if inst == "death_while_caller_pulls_input":
+        # (the input stalls while the caller is still pre-dispatching: there must be more pre-dispatched items than workers)
+        N = max(N, 2 * J + 1)
     managed = rng.random() < 0.5 and inst not in ("executor_replacement", "executor_resize", "next_call_startup_other_n_jobs")
     return dict(i=i, J=J, N=N, ncalls=ncalls, managed=managed, batch_size=rng.choice([1, 1, 2]), arg_bytes=rng.choice([0, 0, 0, 0, 100_000, 1_000_000]),
                 pre_dispatch=rng.choice(["2*n_jobs", "all"]), dur=0.02,
